@@ -633,3 +633,9 @@ package fsm
 //@ func (*StateMachine).EventDexSwap
 //@   trusted
 //@   modifies lib.EventsTracker.Events
+
+// ---- C13: the shared historical validator cache holds committed heights only ----------------------------------
+// a historical view consults (and later fills) the shared cache only for a height strictly below the working
+// height: the list for the working height itself is still being built by the block in progress
+//@ func (*StateMachine).TimeMachine
+//@   callsite RLock requires[pastonly] height < s.height
